@@ -28,6 +28,12 @@ pub trait BytesLike { spec fn bview(&self) -> Seq<u8>; }
 impl<'a> BytesLike for &'a [u8] { open spec fn bview(&self) -> Seq<u8> { (*self)@ } }
 impl BytesLike for Vec<u8> { open spec fn bview(&self) -> Seq<u8> { self@ } }
 impl<'a> BytesLike for &'a Vec<u8> { open spec fn bview(&self) -> Seq<u8> { (*self)@ } }
+impl<'a, const N: usize> BytesLike for &'a [u8; N] { open spec fn bview(&self) -> Seq<u8> { (*self)@ } }
+/// cbor_event's `write_text<S: AsRef<str>>`
+pub trait TextLike { spec fn tview(&self) -> Seq<char>; }
+impl<'a> TextLike for &'a String { open spec fn tview(&self) -> Seq<char> { (*self)@ } }
+impl<'a> TextLike for &'a str { open spec fn tview(&self) -> Seq<char> { (*self)@ } }
+impl TextLike for String { open spec fn tview(&self) -> Seq<char> { self@ } }
 #[verifier::external_body] pub struct Serializer { _p: core::marker::PhantomData<u8> }
 /// the bytes a token sequence denotes (heads as cbor_event writes them: shortest form, cross-checked by Kani)
 pub uninterp spec fn bytes_of_toks(t: Seq<Tok>) -> Seq<u8>;
@@ -47,6 +53,8 @@ impl Serializer {
         ensures r is Ok, final(self).toks() == old(self).toks().push(Tok::Tag(t)) { unimplemented!() }
     #[verifier::external_body] pub fn write_bytes<B: BytesLike>(&mut self, b: B) -> (r: Result<(), CborError>)
         ensures r is Ok, final(self).toks() == old(self).toks().push(Tok::Bytes(b.bview())) { unimplemented!() }
+    #[verifier::external_body] pub fn write_text<S: TextLike>(&mut self, t: S) -> (r: Result<(), CborError>)
+        ensures r is Ok, final(self).toks() == old(self).toks().push(Tok::Text(t.tview())) { unimplemented!() }
     #[verifier::external_body] pub fn write_raw_bytes(&mut self, b: &[u8]) -> (r: Result<(), CborError>)
         ensures r is Ok, final(self).toks() == old(self).toks().push(Tok::Raw(b@)) { unimplemented!() }
     #[verifier::external_body] pub fn write_special(&mut self, s: CBORSpecial) -> (r: Result<(), CborError>)
